@@ -358,6 +358,52 @@ def gen_slot(rng):
     return sc
 
 
+def gen_slotpre(rng):
+    """capacitated pre-emptive slots with long services: repeated interruptions at shrinking slots"""
+    K = rng.choice([1, 1, 2])
+    m = rng.randint(2, 4)
+    slots, t = [], 0
+    for _ in range(m):
+        t += rng.randint(1, 4)
+        slots.append(t)
+    sc = {"N": 1, "K": K, "prio": ([0] * K if rng.random() < 0.5 else list(range(K))),
+          "nodes": [{"kind": "slot", "c": 0, "qcap": INF,
+                     "slot": {"slots": slots, "sizes": [rng.choice([0, 1, 2, 3, 4]) for _ in range(m)], "cap": True,
+                              "pre": rng.choice([1, 2, 3]), "off": rng.choice([0, 1])}}],
+          "arrS": [[samples(rng, 1, 2, 2) for _ in range(K)]],
+          "svcS": [[samples(rng, 4, 12, 2) for _ in range(K)]],
+          "route": [tm([[0]]) for _ in range(K)], "T": rng.randint(20, 45)}
+    if rng.random() < 0.3:
+        sc["batchS"] = [[[1, 2] for _ in range(K)]]
+    return sc
+
+
+def gen_renegesched(rng):
+    """reneging at nodes with (pre-emptive or not) server schedules, including zero-server shifts"""
+    K = rng.choice([1, 2])
+    N = rng.choice([1, 1, 2])
+    sc = gen_tandem(rng, N=N, K=K)
+    sc["prio"] = [0] * K if rng.random() < 0.6 else list(range(K))
+    sc["syscap"] = INF
+    for n, nd in enumerate(sc["nodes"]):
+        nd["qcap"] = INF
+        if nd["c"] >= INF or nd["c"] == 0:
+            nd["c"] = 1
+        if n == 0 or rng.random() < 0.5:
+            nd["kind"] = "sched"
+            nd["c"] = 0
+            nd["sched"] = rand_sched(rng, rng.choice([0, 1, 1, 2, 3]))
+    sc["patS"] = [[(samples(rng, 1, 6, 2) if rng.random() < 0.8 else []) for _ in range(K)] for n in range(N)]
+    sc["patS"][0][0] = sc["patS"][0][0] or [2, 4]
+    for n in range(N):
+        for k in range(K):
+            sc["svcS"][n][k] = samples(rng, 2, 7, 2)
+            if sc["arrS"][n][k]:
+                sc["arrS"][n][k] = samples(rng, 1, 3, 2)
+    sc["T"] = rng.randint(15, 40)
+    return sc
+
+
 def gen_ccw(rng, N=1):
     """class change while waiting (class_change_time_distributions)"""
     K = rng.choice([2, 2, 3])
@@ -630,6 +676,8 @@ def gen_stopcount(rng):
 FAMILIES = {
     "stopcount": gen_stopcount,
     "trk": gen_trk,
+    "slotpre": gen_slotpre,
+    "renegesched": gen_renegesched,
     "jockey": gen_jockey,
     "mix": gen_mix,
     "fault": gen_fault,
